@@ -562,7 +562,7 @@ func run(c fw.Case, tier string, rec *fw.Recorder) {
 
 func cases(tier string, seed int64) []fw.Case {
 	var cs []fw.Case
-	nh, ops := 48, 4000
+	nh, ops := 40, 3500
 	if tier == "thorough" {
 		nh, ops = 640, 12000
 	}
